@@ -104,7 +104,8 @@ def DVal.elems : DVal → List DVal
   | _ => []
 
 /-- target of a non-nil pointer destination, else `dflt` (the freshly allocated zero value) -/
-def DVal.pointee (dflt : DVal) : DVal → DVal
+def DVal.pointee (d : DVal) (dflt : DVal) : DVal :=
+  match d with
   | .ptr (some x) => x
   | _ => dflt
 
